@@ -338,3 +338,140 @@ def check_C14(tier, seed):
     return finish_probes("C14", tier, seed, t0, proof, failures, tie, cov, widen=widen,
                          assumptions=["serde's own derive and serde_json are trusted (round trip observed, not proved)",
                                       "rustc decides which traits a type implements; #[derive(T)] implements T when it compiles"])
+
+
+# ---------------------------------------------------------------------------------------------- C18
+
+BORROWCK = {"E0499", "E0502", "E0505", "E0597", "E0382", "E0506", "E0716", "E0594", "E0596", "E0713", "E0503", "E0521", "error"}
+
+def run_surface_corpus(tag):
+    from . import surfacegen as sg
+    sigs = sg.load_sigs()
+    corpus, uncovered = sg.corpus(sigs)
+    fixed = sg.fixed_probes()
+    failures, tie = [], []
+    # verdicts predicted by the calculus
+    plist = corpus + [p for p, _ in fixed]
+    req = [p.model_line for p in plist if p.model_line]
+    rc, mout, merr = run([MODEL_BIN, "surface"], input="\n".join(req) + "\n", timeout=600)
+    if rc != 0: raise BuildError(f"soa-model surface failed rc={rc}: {merr[-1000:]}")
+    pred = {}
+    it = iter(mout.splitlines())
+    for p in plist:
+        if p.model_line: pred[id(p)] = next(it)
+    # rustc's verdicts, in chunks
+    chunk = 40
+    chunks = [plist[i:i + chunk] for i in range(0, len(plist), chunk)]
+    def run_chunk(ix_ch):
+        ix, ch = ix_ch
+        per, stray = probes.check_functions(f"surface_{tag}_{ix}", sg.PRELUDE, [p.body for p in ch])
+        return ch, per, stray
+    verdicts = {}
+    for ch, per, stray in probes.parallel(run_chunk, list(enumerate(chunks))):
+        typeerr = [c for codes in per for c in codes if c not in BORROWCK] or stray
+        if typeerr:
+            # a type error hides the borrow checker's verdicts of the whole file: judge every probe of the chunk alone
+            def alone(p):
+                per1, stray1 = probes.check_functions(f"surface_{tag}_p{p.pid}_{p.kind}", sg.PRELUDE, [p.body])
+                return p, per1[0] + [s.split(":")[0] for s in stray1]
+            for p, codes in probes.parallel(alone, ch): verdicts[id(p)] = codes
+        else:
+            for p, codes in zip(ch, per): verdicts[id(p)] = codes
+    expect_fixed = {id(p): e for p, e in fixed}
+    counts = collections.Counter()
+    for p in plist:
+        codes = verdicts[id(p)]
+        got = "accept" if not codes else "reject"
+        counts[(p.kind, got)] += 1
+        want = pred.get(id(p))
+        if id(p) in expect_fixed:
+            wantf = "accept" if expect_fixed[id(p)] else "reject"
+            if want is not None and want != wantf:
+                tie.append((f"calculus and corpus expectation disagree on `{p.what}`", {"calculus": want, "expected": wantf, "request": p.model_line}))
+            want = wantf
+        # what the property itself says, independently of the extracted table and the calculus: two live accesses one of
+        # which is mutable are rejected, nothing outlives the container, a single use is legal (a mutable iterator's
+        # next() hands out distinct elements and is the one exception to "twice")
+        if p.sig is not None:
+            k = sg.src_kind(p.sig)
+            stated = None
+            if p.kind == "single": stated = "accept"
+            elif p.kind == "escape": stated = "reject"
+            elif p.sig["out"] == "mutable" and k != "iterMut" and p.kind in ("twice", "then_len", "shared_across"): stated = "reject"
+            if stated is not None:
+                if want is not None and want != stated:
+                    tie.append((f"calculus (from the extracted signature) and property disagree on `{p.what}`", {"calculus": want, "property": stated, "request": p.model_line}))
+                want = stated
+        nonbc = [c for c in codes if c not in BORROWCK]
+        if nonbc and want == "reject":
+            # rejected, but not by the borrow checker: the probe itself is ill-typed (template out of date?)
+            tie.append((f"probe `{p.what}` does not type-check ({','.join(sorted(set(nonbc)))}); no verdict", {"program": p.program()[-600:]}))
+            continue
+        if got != want:
+            safety = (want == "reject")
+            key = f"C18:{p.kind}:{'accepted-illegal' if safety else 'rejected-legal'}:{(p.sig or {}).get('name', p.what.split(':')[0])}"
+            failures.append(ProbeFailure(key, f"{p.what}: rustc {got}s the program ({','.join(sorted(set(codes))) or 'no error'}), the "
+                                         f"{'aliasing / lifetime discipline' if safety else 'legal counterpart'} requires it to be {want}ed",
+                                         p.program(), "compiles" if want == "accept" else "rejected", got + (" " + ",".join(sorted(set(codes))) if codes else ""),
+                                         replay_kind="compile"))
+    for u in uncovered:
+        tie.append((f"no probe template for generated function `{u}` (it returns access to elements)", {}))
+    return failures, tie, len(plist), counts, plist
+
+
+def run_auto_tables(tag):
+    from . import surfacegen as sg
+    failures, tie = [], []
+    jobs = [(pl, nested) for pl in sg.PAYLOADS for nested in (False, True)]
+    res = probes.parallel(lambda j: (j,) + probes.build_and_run(f"auto_{tag}_{j[0][0]}_{int(j[1])}", sg.auto_program(j[0], j[1])), jobs)
+    rc, mout, merr = run([MODEL_BIN, "surface"], input="\n".join(f"auto {pl[3][0]} {pl[3][1]}" for pl, _ in jobs) + "\n", timeout=60)
+    if rc != 0: raise BuildError(f"soa-model surface failed rc={rc}: {merr[-1000:]}")
+    n = 0
+    for ((pl, nested), ok, out, err), ml in zip(res, mout.splitlines()):
+        prog = sg.auto_program(pl, nested)
+        if not ok:
+            first = next((l for l in err.splitlines() if l.startswith("error")), err[:200])
+            failures.append(ProbeFailure(f"C18:auto:compile:{pl[0]}", f"auto-trait probe for payload {pl[1]} (nested={nested}) does not compile: {first}", prog, "runs", "rejected"))
+            continue
+        cells = ml.split(" ")
+        mauto, mcopy = cells[:9], cells[9].split("=")[1]
+        for i, k in enumerate(sg.K9):
+            line = next((l for l in out.splitlines() if l.startswith(f"A {k} ")), None)
+            if line is None:
+                failures.append(ProbeFailure(f"C18:auto:missing:{k}", f"no row for {k}", prog, "a row", "none")); continue
+            _, _, gen, std, cp = line.split()
+            n += 1
+            want = "00" if k in ("ptr", "ptrMut") else std   # pointer bundles are neither, whatever the std pointer says (also 00)
+            if gen != want:
+                failures.append(ProbeFailure(f"C18:auto:{k}:{'send' if gen[0] != want[0] else 'sync'}",
+                                             f"payload {pl[1]} (nested={nested}): generated {k} type is Send/Sync={gen}, the std type it stands for gives {want}",
+                                             prog, f"A {k} {want} {std}", line, extra={"fail_pattern": f"^A {k} (?!{want} )"}))
+            cpw = "1" if k in sg.COPY else "0"
+            if cp.split("=")[1] != cpw:
+                failures.append(ProbeFailure(f"C18:copy:{k}", f"payload {pl[1]} (nested={nested}): generated {k} type Copy={cp.split('=')[1]}, expected {cpw}", prog,
+                                             f"copy={cpw}", line, extra={"fail_pattern": f"^A {k} .* copy=(?!{cpw})"}))
+            if gen != mauto[i] or cp.split("=")[1] != mcopy[i]:
+                tie.append((f"model/rustc disagree on auto traits of {k} for payload {pl[1]} nested={nested}", {"rustc": line, "model": f"{mauto[i]} copy={mcopy[i]}"}))
+    return failures, tie, n
+
+
+def check_C18(tier, seed):
+    t0 = time.time()
+    proof = prove("C18", ["Soa.Props.C18"])
+    failures, tie, nprobes, counts, plist = run_surface_corpus("main")
+    f2, t2, ncells = run_auto_tables("main")
+    failures += f2; tie += t2
+    cov = {
+        "evaluations": nprobes + ncells, "distinct_nontrivial": nprobes + ncells,
+        "rule": "one evaluation = one probe program judged by rustc (aliasing / escape / move / variance programs generated from the extracted signature "
+                "table: six patterns per access-returning generated function and source kind, plus fixed Copy/move/split/reborrow/mutation/variance probes), "
+                "its verdict compared with the loan calculus' prediction; or one cell (generated type x payload kind x nesting) of the Send/Sync/Copy table computed "
+                "by rustc, compared with rustc's verdict on the std type it stands for and with the model. All are distinct and non-trivial by construction.",
+        "samples": [{"what": p.what, "calculus_request": p.model_line, "body": p.body} for p in plist[1:4]],
+        "programs": nprobes + 8, "verdict_histogram": {f"{k}:{v}": n for (k, v), n in sorted(counts.items())},
+        "traces_validated_against_impl": nprobes + ncells, "exhaustive": True,
+        "explanation": "exhaustive over the extracted signature table and the fixed payload kinds, not over all programs: rustc's borrow checker and auto-trait solver are not modelled (partial)",
+    }
+    return finish_probes("C18", tier, seed, t0, proof, failures, tie, cov, widen=None,
+                         assumptions=["rustc's borrow checker / auto-trait solver are the judge (not modelled); safe Rust without unsafe blocks is borrow-sound (rustc's guarantee)",
+                                      "std's auto-trait, Copy and variance facts for Vec<T>, &[T], &mut [T], &T, &mut T, *const T, *mut T, slice::Iter, slice::IterMut (ctorAuto / ctorCopy / ctorCovariant*)"])
